@@ -62,10 +62,14 @@ class Events(core.Scenario):
         self.horizon = max([0.0] + [{'send_late': INTERVAL + TIMEOUT + 0.5,
                                      'silence': INTERVAL + 3 * TIMEOUT + INTERVAL + TIMEOUT + 0.5}.get(c, 0.0)
                                     for c in causes])
+        extra = {}
+        if p.get('trace') and impl == 'sync':
+            # line-granular preemption inside the named library functions (DESIGN 3.4)
+            extra['trace_funcs'] = p['trace']
         w = self.world = peer.make_world(
             impl, server_kwargs=dict(ping_interval=INTERVAL, ping_timeout=TIMEOUT, max_http_buffer_size=100,
                                      async_handlers=False),
-            behaviour=Beh(p['dh'], p.get('mh', 'record')))
+            behaviour=Beh(p['dh'], p.get('mh', 'record')), **extra)
         self.inj = []          # (cause, step, time)
         self.ws = None
         if tr == 'ws_only':
@@ -114,7 +118,13 @@ class Events(core.Scenario):
             if name == 'silence':
                 nb = INTERVAL + 3 * TIMEOUT + INTERVAL + TIMEOUT + 0.5
             return core.Action(name, fire, None, nb)
-        self.scripts = [[cause(c)] for c in causes]
+        if p.get('together'):
+            # both causes are delivered in the same instant by one environment action (two requests /
+            # calls arriving together), so that a single preemption suffices to interleave them
+            acts = [cause(c) for c in causes]
+            self.scripts = [[core.Action('+'.join(causes), lambda sc: [a.fire(sc) for a in acts])]]
+        else:
+            self.scripts = [[cause(c)] for c in causes]
 
     def finish(self):
         w = self.world
@@ -140,6 +150,8 @@ class Events(core.Scenario):
         w.run_until(w.now + INTERVAL + 3 * TIMEOUT + INTERVAL + TIMEOUT + 1.0)
         evA = [e for e in w.events if e[1] == A]
         trig = '+'.join(p['causes']) + '/' + p['dh']
+        if p.get('trace'):
+            trig = 'line_preemption'
         kinds = [e[0] for e in evA]
         if kinds.count('connect') != 1 or kinds[0] != 'connect':
             self.flag('connect_not_first_once', 'events %r' % kinds, trigger=trig)
@@ -231,11 +243,32 @@ def _short(choices):
     return t if len(t) <= 90 else t[:90] + '...(%d points)' % len(t)
 
 
+def trace_list(ctx):
+    ps = []
+    pairs = [('polling', ['post_close', 'api_disc']), ('polling', ['api_disc', 'post_bad']),
+             ('polling', ['post_close', 'post_oversize']), ('websocket', ['frame_close', 'api_disc']),
+             ('websocket', ['peer_close', 'api_disc'])]
+    if not ctx.quick:
+        pairs += [('polling', ['api_disc', 'api_disc_all']), ('ws_only', ['peer_close', 'frame_close']),
+                  ('polling', ['post_close', 'post_bad'])]
+    for tr, cs in pairs:
+        ps.append({'impl': 'sync', 'transport': tr, 'causes': cs, 'dh': 'record', 'trace': ['close'], 'together': True})
+        ps.append({'impl': 'sync', 'transport': tr, 'causes': cs, 'dh': 'record', 'together': True})
+        ps.append({'impl': 'async', 'transport': tr, 'causes': cs, 'dh': 'yield', 'together': True})
+    return ps
+
+
 def run(ctx):
     rep = report.Report('C05', 'model_checking')
     bound = 1 if ctx.quick else 2
     params = param_list(ctx)
     st, viols, samples, gate = core.run_search(Events, params, bound, ctx.workers, ctx.seed)
+    # threaded server only: every source line of Socket.close is a scheduling point
+    st_l, viols_l, samples_l, gate_l = core.run_search(Events, trace_list(ctx), bound, ctx.workers, ctx.seed)
+    st.merge(st_l)
+    viols += viols_l
+    samples = samples[:3] + samples_l[:1]
+    line_execs = st_l.executions
     for v in viols:
         pr = v['params']
         rep.add(report.Violation(
@@ -255,11 +288,12 @@ def run(ctx):
         'exhaustive': True, 'bound_completed': bound, 'caps_hit': st.caps, 'scenarios': len(params),
         'executions_by_deviations': {str(k): v for k, v in sorted(st.by_dev.items())},
         'max_decision_points': st.max_points, 'determinism_gate': gate,
+        'line_granular_executions': line_execs,
     }
     rep.assumptions = [
         'an event fires at entry to its handler; overlapping causes: the reason of any cause delivered before the event fired is accepted (DESIGN S4)',
         'a protocol error / oversize POST may be reported as server disconnect or transport error',
-        'threaded schedules at synchronisation-operation granularity; the check-then-set window inside Socket.close needs line-level preemption and is outside this bound',
+        'threaded schedules at synchronisation-operation granularity, plus line-granular preemption (sys.settrace) inside Socket.close for racing closers of one session',
     ]
     return rep
 
